@@ -1,3 +1,4 @@
+(* EXTRACT *)
 (* Common definitions shared by all models: Go integer narrowing, bytes, outcomes. *)
 From Coq Require Export List ZArith Bool Lia.
 Export ListNotations.
